@@ -83,12 +83,32 @@ def x_twin(ctx, case):
     return True
 
 
+def _known_handler_case(env, raised, outcome):
+    """The recorded finding, exactly: the outcome was reported by a USER-INSERTED handler, for a custom
+    exception that was caught AFTER every failure / error of the run (RunTest ranks a claimed custom
+    exception with failures and errors, and among equals the most recent one decides; it cannot know
+    that the user's handler will report something benign).  A custom exception caught BEFORE a failure
+    must not win - that is not the finding and is reported."""
+    for e in env.tags("user_handler"):
+        if programs.REPORT_OUTCOME[e[3]] != outcome:
+            continue
+        tok = e[4] if len(e) > 4 else None
+        idx = [i for i, (k, t, _) in enumerate(raised) if t == tok and k.startswith("custom:")]
+        failing_idx = [i for i, (k, t, exc) in enumerate(raised)
+                       if not (t == tok and k.startswith("custom:"))
+                       and (programs.expected_outcome(exc, env.case_for_oracle, env) or "addError") in ("addError", "addFailure")]
+        if idx and all(max(idx) > j for j in failing_idx):
+            return True
+    return False
+
+
 def x_prog(ctx, case):
     program = expand(case)
     log = recorders.Log()
     runner = programs.runner_factory_for(case.get("runner"))
     run = programs.execute(program, lambda: recorders.ExtRecorder(log), runner_factory=runner)
     env, the_case = run.env, run.case
+    env.case_for_oracle = the_case
     names = [n for n in log.names() if n in recorders.OUTCOMES]
     raised = list(env.raised)
     forced = bool(env.tags("expect_mismatch", "force")) or bool(program.get("force_attr"))
@@ -152,7 +172,7 @@ def x_prog(ctx, case):
             # If the outcome was reported by a *user-inserted* handler (the harness' handlers log
             # their invocation), RunTest had no way to know that this handler is benign: recorded
             # as a known finding, keyed by exactly this mechanism.
-            if any(programs.REPORT_OUTCOME[e[3]] == outcome for e in env.tags("user_handler")):
+            if _known_handler_case(env, raised, outcome):
                 mech = "user-handler-benign-over-failure"
         ctx.check(outcome in programs.UNSUCCESSFUL, "multi.failure-never-downgraded",
                   lambda: {"failing raised": failing, **detail()}, mechanism=mech)
@@ -164,10 +184,11 @@ def x_prog(ctx, case):
     real = __import__("testtools").TestResult()
     run2 = programs.execute(program, lambda: real,
                             runner_factory=programs.runner_factory_for(case.get("runner")))
+    run2.env.case_for_oracle = run2.case
     if failing or "addUnexpectedSuccess" in mapped and not [m for m in mapped if m != "addUnexpectedSuccess"]:
         mech = "user-handler-benign-over-failure" if (
-            failing and outcome in ("addSkip", "addExpectedFailure") and any(
-                programs.REPORT_OUTCOME[e[3]] == outcome for e in run2.env.tags("user_handler"))
+            failing and outcome in ("addSkip", "addExpectedFailure")
+            and _known_handler_case(run2.env, list(run2.env.raised), outcome)
         ) else None
         ctx.check(not real.wasSuccessful(), "real.wasSuccessful-false-after-failure",
                   lambda: {"errors": len(real.errors), "failures": len(real.failures), **detail()},
@@ -199,11 +220,63 @@ def x_xfail_decor(ctx, case):
     return True
 
 
-SUBCHECKS = {"prog": x_prog, "twin": x_twin, "xfail_decor": x_xfail_decor}
+def x_forced_rerun(ctx, case):
+    """force_failure set by the USER (on the class or on the instance, before run()) stays set: every run
+    of the instance is unsuccessful, whatever else happened in earlier runs (failed expectations, raises)."""
+    tok = progen.Tok()
+    first = {"expect": [["expect", tok("E"), False, []]], "expect_ok": [["expect", tok("E"), True, []]],
+             "fail": [["raise", "fail", tok("F")]], "nothing": []}[case["first"]]
+    program = {"su_pre": [], "su": [], "td": [], "td_pre": [], "force_attr": case["where"],
+               "test": [["first_run_only", first]] if first else []}
+    env = programs.Env(program)
+    the_case = programs.build_case(program, env)
+    outs = []
+    for i in range(case["runs"]):
+        log = recorders.Log()
+        programs.execute(program, lambda: recorders.ExtRecorder(log), env=env, case=the_case)
+        env.reset_for_rerun()
+        outs.append([n for n in log.names() if n in recorders.OUTCOMES])
+    ctx.check(all(o == ["addFailure"] for o in outs), "success-only-if-clean",
+              lambda: {"force_failure set by the user on": case["where"], "first run does": case["first"],
+                       "outcomes of the runs": outs})
+    return True
+
+
+def x_runtest_reuse(ctx, case):
+    """One RunTest object used for several runs (RunTest(case, handlers).run(result) is public API, and
+    a run_tests_with factory may hand out the runner it made earlier): each run's outcome is decided by
+    what was raised in THAT run."""
+    import testtools
+    tok = progen.Tok()
+    every = [["raise", case["every_run"], tok("S")]] if case["every_run"] else []
+    program = {"su_pre": [["cleanup", "c1", [["first_run_only", [["raise", k, tok("C")] for k in case["first_cleanup"]]]]]],
+               "su": [], "td": [], "td_pre": [],
+               "test": [["first_run_only", [["raise", case["first_test"], tok("T")]]]] + every}
+    env = programs.Env(program)
+    the_case = programs.build_case(program, env)
+    rt = testtools.RunTest(the_case, the_case.exception_handlers, last_resort=the_case._report_error)
+    outs = []
+    for i in range(3):
+        log = recorders.Log()
+        the_case._reset()
+        try:
+            rt.run(recorders.ExtRecorder(log))
+        except BaseException as e:  # noqa
+            log.add("propagated", None, {"exc": repr(e)})
+        env.reset_for_rerun()
+        outs.append([n for n in log.names() if n in recorders.OUTCOMES or n == "propagated"])
+    want_later = [{"skip": "addSkip", "fail": "addFailure", None: "addSuccess"}[case["every_run"]]]
+    ctx.check(outs[1] == want_later and outs[2] == want_later, "single.outcome-is-mapped-one",
+              lambda: {"one RunTest, three runs": outs, "want for runs 2 and 3": want_later, "case": case})
+    return True
+
+
+SUBCHECKS = {"prog": x_prog, "twin": x_twin, "xfail_decor": x_xfail_decor, "forced_rerun": x_forced_rerun,
+             "runtest_reuse": x_runtest_reuse}
 
 FEATURES = ("own_exc", "expect", "force", "decor", "noupcall", "nested_cleanup", "handlers", "late_handler",
-            "truthy_return")
-ALL_KINDS = ["fail", "error", "skip", "xfail", "uxs", "kbd", "exit", "kbdsub", "exitsub", "skipsub",
+            "truthy_return", "base_handler")
+ALL_KINDS = ["fail", "error", "skip", "xfail", "uxs", "kbd", "exit", "kbdsub", "exitsub", "basedirect", "skipsub",
              "failsub", "mismatch"]
 
 
@@ -215,7 +288,7 @@ def run(ctx):
             if ctx.mine():
                 n += 1
                 ctx.execute("prog", {"placed": [[stage, kind]]})
-    ctx.note_space("single raise: 5 stages x 12 kinds", n)
+    ctx.note_space("single raise: 5 stages x 13 kinds", n)
     n = 0
     for stage in STAGES:
         for other in (None, "fail", "skip"):
@@ -227,6 +300,38 @@ def run(ctx):
                 ctx.execute("prog", {"placed": placed})
     ctx.note_space("an exception object that is falsy (defines __len__), at each stage, alone / with a failure / "
                    "with a skip", n)
+    n = 0
+    for exc in ("CustomA", "CustomBase"):
+        for report in ("skip", "xfail", "failure", "error"):
+            for i, s1 in enumerate(STAGES):
+                for s2 in STAGES[i + 1:]:
+                    for first_custom in (True, False):
+                        for other in ("fail", "error"):
+                            if ctx.mine():
+                                n += 1
+                                placed = [[s1, "custom:" + exc], [s2, other]] if first_custom else \
+                                    [[s1, other], [s2, "custom:" + exc]]
+                                ctx.execute("prog", {"placed": placed, "extra": {"handlers": [[exc, report, 0]]}})
+    ctx.note_space("a custom exception (Exception- and BaseException-derived) with a user handler reporting skip / "
+                   "xfail / failure / error, before or after a failure / error: 2 x 4 x 10 stage pairs x 2 x 2", n)
+    n = 0
+    for first_test in ("fail", "error", "skip"):
+        for first_cleanup in (["error"], ["fail", "error"], []):
+            for every in (None, "skip", "fail"):
+                if ctx.mine():
+                    n += 1
+                    ctx.execute("runtest_reuse", {"first_test": first_test, "first_cleanup": first_cleanup,
+                                                  "every_run": every})
+    ctx.note_space("one RunTest object run three times: first run raises from test and cleanup (3 x 3), every run "
+                   "raises nothing / a skip / a failure", n)
+    n = 0
+    for where in ("instance", "class"):
+        for first in ("expect", "expect_ok", "fail", "nothing"):
+            for runs in (1, 2, 3):
+                if ctx.mine():
+                    n += 1
+                    ctx.execute("forced_rerun", {"where": where, "first": first, "runs": runs})
+    ctx.note_space("user-set force_failure (class / instance) x what the first run does (4) x 1..3 runs", n)
     n = 0
     for beh in ("ok", "fail", "error", "failsub", "mismatch", "skip"):
         for runs in (1, 2, 3):
